@@ -39,7 +39,7 @@ ASSUMPTIONS = [
     "PEP 479: a StopIteration escaping next(reader) inside a generator becomes RuntimeError",
     "the input stream is finite; LineReader.__next__ consumes one line per call",
 ]
-FLOORS = {"C10.R7": 1, "C10.R1": 3, "C10.R2": 3, "C10.R3": 3, "C10.R4": 4, "C10.R5": 3, "C10.R6": 4}
+FLOORS = {"C10.R8": 2, "C10.R7": 1, "C10.R1": 3, "C10.R2": 3, "C10.R3": 3, "C10.R4": 4, "C10.R5": 3, "C10.R6": 4}
 
 
 def run(chk):
@@ -57,6 +57,7 @@ def run(chk):
     chk.call(r6_own_counts, chk, ym, yx)
     chk.call(line_reader, chk)
     chk.call(r7_suppression_rearmed, chk, rm)
+    chk.call(r8_required_columns, chk)
 
 
 # ---------------------------------------------------------------------------
@@ -427,6 +428,27 @@ def line_reader(chk):
     fifo = len(push) == 1 and len(pops) == 1 and (pops[0].func.attr, push[0].func.attr) in (("popleft", "append"), ("pop", "appendleft"))
     chk.decide(fifo, "C10.R5", f"{pb.key}:stores-line", pb.where(), "put_back stores the line for the next read (first put back, first served)",
                "put_back does not store the line at the end of the deque opposite to the one __next__ takes from")
+
+
+REQUIRED_RECORD_FIELDS = {
+    # the columns a mol2 record line must have: a line cut short must fail in the record constructor (TypeError), not yield a record
+    "MOL2Atom": ["_idx", "label", "_x", "_y", "_z"],
+    "MOL2Bond": ["_idx", "_a1", "_a2", "mol2_type"],
+}
+
+
+def r8_required_columns(chk):
+    prog = chk.prog
+    for cname, need in REQUIRED_RECORD_FIELDS.items():
+        ci = prog.cls(f"molli.parsing.mol2:{cname}")
+        flds = prog.fields(ci)
+        names = [f_["name"] for f_ in flds]
+        lead = names[: len(need)]
+        opt = [f_["name"] for f_ in flds if f_["name"] in need and f_.get("has_default")]
+        chk.decide(lead == need and not opt, "C10.R8", f"{ci.module.relpath}:{cname}:required-columns", f"{ci.module.relpath}:{ci.node.lineno}",
+                   f"{cname}{tuple(need)} are the leading fields and have no default",
+                   f"{cname}: leading fields {lead}, with defaults {opt}: a record line that was cut short (fewer than {len(need)} columns) is accepted as a record "
+                   f"with `{opt[0] if opt else '?'}` missing instead of raising" if (opt or lead != need) else "")
 
 
 def r7_suppression_rearmed(chk, rm):
